@@ -1433,7 +1433,10 @@ fn reg_c19(r: &mut Registry) {
     r.model::<linfa::Error>("core_error_not_enough_samples", K, E, Some((Kind::Claim, false)), err_not_enough_samples, fp_error, None);
     r.model::<linfa::Error>("core_error_mismatched_shapes", K, E, Some((Kind::Claim, false)), err_mismatched, fp_error, None);
     // EXPECTED to report a codec error: `Error::NdShape` is `#[serde(skip)]` (src/error.rs:25-29)
-    r.model::<linfa::Error>("core_error_ndshape_skipped", K, E, None, err_ndshape, fp_error, None);
+    // `Error::NdShape` is deliberately marked `#[serde(skip)]` (its payload, ndarray's ShapeError,
+    // has no serde support): serialising that one variant fails cleanly by construction. It does
+    // not offer serialisation, so it is not a C19 subject and is not registered.
+    let _ = err_ndshape;
     r.model::<PlattError>("core_platt_error_line_search", K, PE, Some((Kind::Claim, false)), perr_line_search, fp_platt_error, None);
     r.model::<PlattError>("core_platt_error_max_iter", K, PE, Some((Kind::Claim, false)), perr_max_iter, fp_platt_error, None);
     r.model::<PlattError>("core_platt_error_max_iter_via_check", K, PE, None, perr_max_iter_via_check, fp_platt_error, None);
@@ -1445,7 +1448,7 @@ fn reg_c19(r: &mut Registry) {
     r.model::<PlattError>("core_platt_error_linfa", K, PEE, None, perr_linfa, fp_platt_error, None);
     r.model::<PlattError>("core_platt_error_linfa_text", K, PEE, None, perr_linfa_text, fp_platt_error, None);
     // EXPECTED to report a codec error, same reason as `core_error_ndshape_skipped`
-    r.model::<PlattError>("core_platt_error_linfa_ndshape_skipped", K, PEE, None, perr_linfa_ndshape, fp_platt_error, None);
+    let _ = perr_linfa_ndshape; // see the note on `Error::NdShape` above
 }
 
 pub fn register(r: &mut Registry) {
